@@ -116,12 +116,13 @@ func eventStrings(ev []sim.Event) []string {
 	return s
 }
 
-// runPath executes a path on a fresh instance and returns the violation met.
-func runPath(s *explore.Suite, events []sim.Event) (*common.Violation, error) {
+// runPath executes a path on a fresh instance and returns the violations met
+// at the first violating step.
+func runPath(s *explore.Suite, events []sim.Event) ([]*common.Violation, error) {
 	x, v := explore.NewExec(s)
 	defer x.Close()
 	if v != nil {
-		return v, nil
+		return append([]*common.Violation(nil), x.All...), nil
 	}
 	for _, e := range events {
 		v, err := x.Apply(e)
@@ -129,7 +130,7 @@ func runPath(s *explore.Suite, events []sim.Event) (*common.Violation, error) {
 			return nil, err
 		}
 		if v != nil {
-			return v, nil
+			return append([]*common.Violation(nil), x.All...), nil
 		}
 	}
 	return nil, nil
@@ -137,8 +138,17 @@ func runPath(s *explore.Suite, events []sim.Event) (*common.Violation, error) {
 
 func confirm(s *explore.Suite, f *explore.Found) bool {
 	for i := 0; i < 5; i++ {
-		v, err := runPath(s, f.Events)
-		if err != nil || v == nil || v.Property != f.V.Property || v.Signature != f.V.Signature {
+		vs, err := runPath(s, f.Events)
+		if err != nil {
+			return false
+		}
+		ok := false
+		for _, v := range vs {
+			if v.Property == f.V.Property && v.Signature == f.V.Signature {
+				ok = true
+			}
+		}
+		if !ok {
 			return false
 		}
 	}
@@ -180,12 +190,19 @@ func replay(path string) int {
 		if os.Getenv("VERIF_DUMP") != "" {
 			fmt.Print(x.C.Dump())
 		}
-		if v == nil {
-			fmt.Println("replay finished without a violation")
-			return 0
+		code := 0
+		for _, w := range x.All {
+			if w.Property == r.Property {
+				fmt.Printf("VIOLATION property=%s replay=%s signature=%q detail=%q\n", w.Property, path, w.Signature, w.Detail)
+				code = 1
+			} else {
+				fmt.Printf("NOTE: also violates %s (%s)\n", w.Property, w.Signature)
+			}
 		}
-		fmt.Printf("VIOLATION property=%s replay=%s signature=%q detail=%q\n", v.Property, path, v.Signature, v.Detail)
-		return 1
+		if code == 0 {
+			fmt.Println("replay finished without a violation of", r.Property)
+		}
+		return code
 	}
 	if fn, ok := replayers[r.Engine]; ok {
 		return fn(r, path)
